@@ -6,7 +6,6 @@ import c2lean, c2lean2, vlib
 
 INC = ['-I' + os.path.join(vlib.REPO, 'include'), '-DNDEBUG']
 UNITS = {
-    'Rand': (os.path.join(vlib.REPO, 'librfn/rand.c'), ['rand31_r']),
     'Wav': (os.path.join(vlib.REPO, 'librfn/wavheader.c'), ['rf_wavheader_get_format']),
     'Util': (os.path.join(vlib.REPO, 'librfn/util.c'), ['cyclecmp32']),
 }
@@ -23,6 +22,7 @@ UNITS2 = {
     # C16: helpers are inlined, loops (a harmless rewrite may count nibbles or bits in one) unrolled 32 times
     'BitopsSeq': (os.path.join(vlib.REPO, 'librfn/bitops.c'), ['bitcnt', 'clz', 'ctz', 'ilog2'], 32),
     'ConstexprSeq': (os.path.join(vlib.VERIF, 'harness/wrap_constexpr.c'), ['w_const_pop', 'w_const_lssb'], 32),
+    'RandSeq': (os.path.join(vlib.REPO, 'librfn/rand.c'), ['rand31_r'], 4),
     'HexSeq': (os.path.join(vlib.REPO, 'librfn/hex.c'), ['hexchar', 'nibble'], 16),
     'RotencSeq': (os.path.join(vlib.REPO, 'librfn/rotenc.c'), ['rotenc_decode', 'rotenc_count14', 'rotenc_count'], 4),
     # wavheader.c as a control skeleton with data: the pack functions, memcmp and memcpy are the environment (their calls, with the
